@@ -25,6 +25,10 @@ class EC(Event):
     pass
 
 
+class EA2(EA):  # a proper subclass event is acceptable on a channel declared for EA
+    pass
+
+
 class Base:
     a = Signal(EA)
     b = Signal(EB)
@@ -121,6 +125,20 @@ def fn(a, tier):
                         both.append(ev)
 
             await tg.start(listen_both)
+            # a subscriber of the first channel that is cancelled in the middle of its stream, BEFORE the
+            # regular listeners subscribe: nothing of it may stay behind
+            doomed = anyio.CancelScope()
+
+            async def listen_doomed(*, task_status):
+                with doomed:
+                    async with bound[keys[0]].stream_events() as stream:
+                        task_status.started()
+                        async for _ in stream:
+                            pass
+
+            await tg.start(listen_doomed)
+            doomed.cancel()
+            await anyio.wait_all_tasks_blocked()
             for k in keys:
                 await tg.start(listen, k)
             sent = {}
@@ -128,20 +146,28 @@ def fn(a, tier):
                 ev = EVCLS[k[1]]()
                 sent[k] = ev
                 bound[k].dispatch(ev)
-                wrong = EB() if k[1] != "b" else EA()
-                try:
-                    bound[k].dispatch(wrong)
-                    errors.append(("wrong-class-accepted", k))
-                except TypeError:
-                    pass
+                for wrong in (EB() if k[1] != "b" else EA(), Event()):  # a sibling class, and the BASE class of all events
+                    try:
+                        bound[k].dispatch(wrong)
+                        errors.append((f"wrong-class-accepted:{type(wrong).__name__}", k))
+                    except TypeError:
+                        pass
+                if k[1] == "a":
+                    sub = EA2()
+                    try:
+                        bound[k].dispatch(sub)
+                        sent[(k, "sub")] = sub
+                    except TypeError:
+                        errors.append(("subclass-event-rejected", k))
             await anyio.wait_all_tasks_blocked()
             for k in keys:
-                if len(got[k]) != 1 or got[k][0] is not sent[k]:
-                    errors.append(("delivery-matrix", f"{k} received {len(got[k])} events"))
-                elif sent[k].source is not insts[k[0]] or sent[k].topic != k[1]:
+                exp_k = [sent[k]] + ([sent[(k, "sub")]] if (k, "sub") in sent else [])
+                if len(got[k]) != len(exp_k) or any(x is not y for x, y in zip(got[k], exp_k)):
+                    errors.append(("delivery-matrix", f"{k} received {len(got[k])} events, expected {len(exp_k)}"))
+                elif sent[k].source is not insts[k[0]] or sent[k].topic != k[1]:  # noqa
                     errors.append(("stamp", f"{k}: source={sent[k].source!r} topic={sent[k].topic!r}"))
-            exp_both = [sent[(0, attrs[0])], sent[(1, attrs[0])]]
-            if len(both) != 2 or any(x is not y for x, y in zip(sorted(both, key=id), sorted(exp_both, key=id))):
+            exp_both = [sent[(0, attrs[0])], sent[(1, attrs[0])]] + [sent[(kk, "sub")] for kk in ((0, attrs[0]), (1, attrs[0])) if (kk, "sub") in sent]
+            if len(both) != len(exp_both) or any(x is not y for x, y in zip(sorted(both, key=id), sorted(exp_both, key=id))):
                 errors.append(("multi-signal-stream-over-two-instances", f"received {len(both)} of 2 events"))
             # class-level use
             decl = getattr(cls, attrs[0])
